@@ -131,8 +131,15 @@ func (e *Engine) renderScripts(obls []*Obligation, axioms, assumes []*Term) {
 		if syms["uf:elemIndex"] {
 			asserts = append([]*Term{ElemIndexAxiom()}, asserts...)
 		}
-		s := Script(asserts, true, nil)
-		s = strings.Replace(s, "(check-sat)\n", "(check-sat)\n(get-model)\n", 1)
+		var mterms []*Term
+		if !o.Cover {
+			var nodes []*inputNode
+			for _, in := range o.inputs {
+				in.terms(&mterms, &nodes)
+			}
+		}
+		s := Script(asserts, true, mterms)
+		s += "(get-model)\n"
 		o.script = s
 		o.SMTLen = len(s)
 		// abstraction variant: large string concatenations that occur more than
@@ -157,8 +164,7 @@ func (e *Engine) renderScripts(obls []*Obligation, axioms, assumes []*Term) {
 			}
 		}
 		if len(qf) < len(asserts) {
-			s2 := Script(qf, true, nil)
-			o.scriptQF = strings.Replace(s2, "(check-sat)\n", "(check-sat)\n(get-model)\n", 1)
+			o.scriptQF = Script(qf, true, mterms) + "(get-model)\n"
 		}
 	}
 }
